@@ -335,11 +335,60 @@ def constant_pairs(col: common.Collector) -> None:
                               {"constant": cn, "op": on})
 
 
+def wrapper_laws(col: common.Collector) -> None:
+    """Wrapped data compares by identity (documented).  Whatever == answers for wrappers over
+    the same / equal / different buffers, it must be symmetric, agree with != and with the
+    hash, and carry over to expressions built on them."""
+    import pickle
+
+    import numpy as np
+    import pytato as pt
+    arr = np.arange(6.0).reshape(2, 3)
+    w1 = pt.make_data_wrapper(arr)
+    cases = {
+        "same-object": (w1, w1, True),
+        "same-buffer-two-wrappers": (w1, pt.make_data_wrapper(arr), None),
+        "equal-copy": (w1, pt.make_data_wrapper(arr.copy()), None),
+        "view": (w1, pt.make_data_wrapper(arr[:]), None),
+        "different-data": (w1, pt.make_data_wrapper(arr + 1), False),
+        "pickled": (w1, pickle.loads(pickle.dumps(w1)), None),
+    }
+    for label, (a, b, want) in cases.items():
+        for wrap_name, wrap in (("bare", lambda x: x), ("expr", lambda x: 2 * x.T + 1),
+                                ("dict", lambda x: pt.make_dict_of_named_arrays({"o": x}))):
+            col.count("mon.wrapper_laws")
+            ea, eb = wrap(a), wrap(b)
+            wit = {"wrappers": label, "context": wrap_name}
+            try:
+                ab, ba, nab = ea == eb, eb == ea, ea != eb
+            except Exception as ex:  # noqa: BLE001
+                col.violation(f"C04:eq-raises:wrapper:{type(ex).__name__}", str(ex)[:120], wit)
+                continue
+            if ab != ba:
+                col.violation(f"C04:not-symmetric:wrapper:{label}", f"a==b {ab}, b==a {ba}", wit)
+            if nab == ab:
+                col.violation(f"C04:ne-disagrees-with-eq:wrapper:{label}", f"== {ab}, != {nab}",
+                              wit)
+            if want is not None and ab != want:
+                col.violation(f"C04:wrapper-equality:{label}", f"== is {ab}, expected {want}",
+                              wit)
+            if ab:
+                try:
+                    if hash(ea) != hash(eb) or eb not in {ea} or {ea: 1}.get(eb) != 1:
+                        col.violation(f"C04:equal-but-hash-differs:wrapper:{label}",
+                                      f"{wrap_name}: equal objects with different hashes / not "
+                                      "found as dict key", wit)
+                except Exception as ex:  # noqa: BLE001
+                    col.violation(f"C04:hash-raises:wrapper:{type(ex).__name__}", str(ex)[:120],
+                                  wit)
+
+
 def run_shard(shard: dict[str, Any], col: common.Collector) -> None:
     pool: list[Any] = []
     built = []
     if shard.get("idx", 0) == 0:
         constant_pairs(col)
+        wrapper_laws(col)
     for desc in shard["descs"]:
         try:
             with common.time_limit(120):
